@@ -19,3 +19,120 @@ def jobs(tier):
                         solver='cadical', timeout=300, must_have=['postcondition', 'loop_invariant_step', 'loop_decreases', 'pointer_dereference'],
                         clause='the hash of any key has its top bit set, so it is never 0 (0 marks a removed entry)'))
     return out
+
+
+# ---- bounded model check of the real HList<StringView<char>> / HashTable code against an insertion-ordered set model ------------------
+HT = 'HashTable__StringView__char_HLItem_T__StringView__char'
+HL = 'HList__StringView__char'
+QHT = 'Qentem::HashTable<Qentem::StringView<char>, Qentem::HLItem_T<Qentem::StringView<char>>>'
+QHL = 'Qentem::HList<Qentem::StringView<char>>'
+HUNIT = dict(driver='hlist.cpp')
+
+
+def scenario_body(ops):
+    """ops: list of ('I', k) | ('R', k) | ('S',) | ('C',); k is 0,1,2 or 'r' (symbolic key index)"""
+    L = []
+    for op in ops:
+        k = op[1] if len(op) > 1 else None
+        ks = 'r' if k == 'r' else str(k)
+        if op[0] == 'I':
+            L.append('  %s_Insert__const_char_p_const_unsigned_int(&h, &qx_keys[%s], 1u); m_insert(%s);' % (HL, ks, ks))
+        elif op[0] == 'R':
+            L.append('  %s_Remove__const_char_p_unsigned_int_c(&h.qx_base, &qx_keys[%s], 1u); m_remove(%s);' % (HT, ks, ks))
+        elif op[0] == 'S':
+            L.append('  %s_Sort(&h.qx_base, asc); m_sort(asc);' % HT)
+        elif op[0] == 'C':
+            L.append('  %s_Compress(&h.qx_base);' % HT)
+        L.append('  qx_compare(&h);')
+    return '\n'.join(L)
+
+
+SCENARIOS = {
+    'insert3-remove-sort': [('I', 0), ('I', 1), ('I', 2), ('R', 'r'), ('S',)],
+    'insert-remove-reinsert-compress': [('I', 0), ('I', 1), ('R', 'r'), ('I', 'r'), ('C',), ('I', 2)],
+    'duplicates-and-grow': [('I', 'r'), ('I', 'r'), ('I', 0), ('I', 1), ('I', 2), ('R', 1)],
+}
+
+
+def map_model_job(name, ops):
+    body = scenario_body(ops)
+    roots = [QHL + '::Insert(const char *, const unsigned int)', QHT + '::Has(const char *, const unsigned int)', QHT + '::Remove(const char *, unsigned int)',
+             QHT + '::Sort', QHT + '::GetKey', QHT + '::ActualSize', QHT + '::~HashTable', QHT + '::Size', QHT + '::Compress',
+             QHT + '::GetKeyIndex(unsigned int &, const char *, const unsigned int)']
+    h = '''
+static char qx_keys[3];
+static unsigned int g_h[3];   /* symbolic hash per key: every collision pattern is explored; StringUtils::Hash itself is enforced separately */
+unsigned int StringUtils_Hash__char(const char *key, unsigned int length) { return g_h[key - qx_keys] | 0x80000000u; }
+static _Bool m_present[3];
+static unsigned int m_order[3], m_n;      /* live keys in iteration order */
+
+static void m_insert(unsigned int k) { if (!m_present[k]) { m_present[k] = 1; m_order[m_n] = k; m_n = m_n + 1; } }
+static void m_remove(unsigned int k) {
+  if (m_present[k]) { m_present[k] = 0; unsigned int j = 0; for (unsigned int i = 0; i < m_n; i++) if (m_order[i] != k) { m_order[j] = m_order[i]; j = j + 1; } m_n = j; }
+}
+static void m_sort(_Bool ascend) {
+  for (unsigned int a = 0; a < 3; a++) for (unsigned int b = 0; b + 1 < m_n; b++) {
+    _Bool swap = ascend ? (qx_keys[m_order[b]] > qx_keys[m_order[b + 1]]) : (qx_keys[m_order[b]] < qx_keys[m_order[b + 1]]);
+    if (swap) { unsigned int t = m_order[b]; m_order[b] = m_order[b + 1]; m_order[b + 1] = t; }
+  }
+}
+
+static void qx_compare(struct %(HL)s *h)
+{
+  struct %(HT)s *t = &h->qx_base;
+  unsigned int live = 0;
+  for (unsigned int k = 0; k < 3; k++) {
+    _Bool has = %(HT)s_Has__const_char_p_const_unsigned_int_c(t, &qx_keys[k], 1u);
+    __CPROVER_assert(has == m_present[k], "a key is found exactly when it was stored and not removed since");
+    unsigned int idx;
+    _Bool gi = %(HT)s_GetKeyIndex__unsigned_int_r_const_char_p_const_unsigned_int_c(t, &idx, &qx_keys[k], 1u);
+    __CPROVER_assert(gi == m_present[k], "key-to-index lookup agrees with membership");
+    if (gi) {
+      const struct StringView__char *key = %(HT)s_GetKey(t, idx);
+      __CPROVER_assert(key != 0 && key->length_ == 1 && key->storage_[0] == qx_keys[k], "index-to-key lookup returns the same key");
+    }
+  }
+  __CPROVER_assert(%(HT)s_ActualSize(t) == m_n, "number of live entries");
+  for (unsigned int i = 0; i < %(HT)s_Size(t); i++) {
+    const struct StringView__char *key = %(HT)s_GetKey(t, i);
+    if (key != 0) {
+      __CPROVER_assert(live < m_n && key->length_ == 1 && key->storage_[0] == qx_keys[m_order[live]], "iteration visits live entries in first-insertion order (key order after a sort)");
+      live = live + 1;
+    }
+  }
+  __CPROVER_assert(live == m_n, "iteration visits every live entry");
+}
+
+void qx_harness(void)
+{
+  struct %(HL)s h;
+  h.qx_base.hashTable_ = 0; h.qx_base.index_ = 0; h.qx_base.capacity_ = 0;   /* default member initialisers */
+  char c0, c1, c2;
+  __CPROVER_assume(c0 != c1 && c0 != c2 && c1 != c2);
+  qx_keys[0] = c0; qx_keys[1] = c1; qx_keys[2] = c2;
+  { unsigned int h0, h1, h2; g_h[0] = h0; g_h[1] = h1; g_h[2] = h2; }
+  m_n = 0; m_present[0] = 0; m_present[1] = 0; m_present[2] = 0;
+  unsigned int r; _Bool asc;
+  __CPROVER_assume(r < 3);
+%(BODY)s
+  %(HT)s_dtor(&h.qx_base);
+}
+''' % dict(HT=HT, HL=HL, BODY=body)
+    return dict(name='HList<StringView>.map-model.%s' % name, unit=HUNIT, fn=HT + '_dtor', roots=roots, specs={}, mode='raw', harness=h, cuts=['StringUtils_Hash__char'],
+                solver='cadical', timeout=900, objbits=9, canary=False,
+                cbmc_flags=['--unwind', '9', '--unwindset',
+                            'Memory_Sort__0_HLItem_T__StringView__char_unsigned_int:4,Memory_Sort__m1_HLItem_T__StringView__char_unsigned_int:4', '--unwinding-assertions'],
+                checks=['--no-standard-checks'],
+                bounded='one operation sequence (%s) over 3 distinct one-unit keys with symbolic code units, symbolic choice of the removed key and of the sort direction; compared with the model after every operation; loops unwound to 12' % ' '.join(''.join(str(x) for x in op) for op in ops),
+                must_have=['assertion'],
+                clause='the real hash table agrees with an insertion-ordered set model after every operation (membership, key<->index, live count, iteration order), without leaks')
+
+
+_jobs_c13 = jobs
+
+
+def jobs(tier):
+    # the bounded map-model scenarios below do not fit: CBMC runs out of memory (14 GB) while converting the SSA of even one five-operation
+    # scenario of the real HashTable code (quicksort recursion, chain walks, re-hash).  Kept for the record, not run.
+    unfinished = [map_model_job(n, ops) for n, ops in SCENARIOS.items()]
+    return _jobs_c13(tier)
